@@ -2300,12 +2300,41 @@ class WBEMConnection:  # pylint: disable=too-many-instance-attributes
 
         # #  Original code return tup_tree
 
+        def typed_value(value, paramtype, elem_name):
+            """
+            Convert the value of a RETURNVALUE or PARAMVALUE element (CIM-XML
+            value string(s), or already parsed objects) into a CIM data type
+            object of the type stated by the element.
+            """
+            def from_xml(val):
+                if isinstance(val, str) and \
+                        paramtype not in (None, 'string', 'reference'):
+                    # Raises CIMXMLParseError for invalid values and types
+                    return tp.unpack_single_value(val, paramtype)
+                return val
+            if isinstance(value, list):
+                value = [from_xml(v) for v in value]
+            else:
+                value = from_xml(value)
+            try:
+                return cimvalue(value, paramtype)
+            except (ValueError, TypeError) as exc:
+                new_exc = CIMXMLParseError(
+                    _format("Element {0} has a value that cannot be "
+                            "converted to CIM type {1!A}: {2}",
+                            elem_name, paramtype, exc),
+                    conn_id=self.conn_id)
+                new_exc.__cause__ = None
+                raise new_exc
+
         # Convert optional RETURNVALUE into a Python object
         returnvalue = None
 
         if tup_tree and tup_tree[0][0] == 'RETURNVALUE':
 
-            returnvalue = cimvalue(tup_tree[0][2], tup_tree[0][1]['PARAMTYPE'])
+            returnvalue = typed_value(
+                tup_tree[0][2], tup_tree[0][1].get('PARAMTYPE', None),
+                'RETURNVALUE')
             tup_tree = tup_tree[1:]
 
         # Convert zero or more PARAMVALUE elements into dictionary
@@ -2316,7 +2345,7 @@ class WBEMConnection:  # pylint: disable=too-many-instance-attributes
             if p[1] == 'reference':
                 output_params[p[0]] = p[2]
             else:
-                output_params[p[0]] = cimvalue(p[2], p[1])
+                output_params[p[0]] = typed_value(p[2], p[1], 'PARAMVALUE')
 
         return (returnvalue, output_params)
 
